@@ -1,9 +1,73 @@
-From BT Require Import Base.Util Base.LE Base.Float Generated.Consts Model.RTree Model.BBIFile Model.BigWigWrite
-  Model.BBIRead Model.CachedRead Proofs.Chunks Proofs.BigWigQuery Proofs.CachedReadInv.
+From BT Require Import Base.Util Base.Sexp Base.LE Base.Float Generated.Consts Model.RTree Model.BBIFile Model.BigWigWrite
+  Model.BBIRead Model.CachedRead Model.Entry_C03 Proofs.Chunks Proofs.BigWigQuery Proofs.RTreeCodec Proofs.CachedReadInv
+  Proofs.BigWigSection Proofs.C03Image Proofs.BigWigValues Proofs.BigWigFileRoundTrip Proofs.BigWigFileThms Proofs.C03Written.
+From Coq Require Import Sorting.Sorted.
 From BT Require Properties.C03.
 Local Open Scope N_scope.
+Check (C03.C03_section_codec : forall l rest, Forall BigWigSection.value_ok l ->
+  parse_type1 false (length l) (flat_map value_bytes l ++ rest) = l).
+Check (C03.C03_block_decode : forall i cid st en items chrom s e,
+  h_big (i_hdr i) = false -> cid < U32 -> st < U32 -> Nlen items < U16 -> Forall BigWigSection.value_ok items ->
+  block_values_of i (section_header cid st en (Nlen items) ++ flat_map value_bytes items) chrom s e
+  = Ok (if cid =? chrom then Some (clip_filter s e items) else None)).
+Check (C03.C03_query_image : forall (infl store : list N -> list N) (b ips : N) (outs : list chrom_out)
+    (pre mid post ix : list N) (lv : nat) (i : info) (c : chrom_out) (cn : name) (s e : N),
+  let abs := file_ablocks (N.to_nat ips) outs in
+  let data := map (ab_sdata store) abs in
+  let ixpos := Nlen (pre ++ data_bytes data ++ mid) in
+  let bs := pre ++ data_bytes data ++ mid ++ ix ++ post in
+  write_index b ips ixpos (place (Nlen pre) data) = Ok (ix, lv) ->
+  Nlen bs < U64 ->
+  h_big (i_hdr i) = false ->
+  (forall x, (if 0 <? h_ubuf (i_hdr i) then infl (store x) else store x) = x) ->
+  h_full_index_off (i_hdr i) = ixpos ->
+  chrom_id i cn = Ok (co_id c) ->
+  2 <= b <= 65535 -> 0 < ips < U16 ->
+  ids_increasing outs -> Forall (out_ok ips) outs ->
+  In c outs -> co_vals c <> [] ->
+  bw_interval infl bs i cn s e = Ok (clip_filter s e (co_vals c))).
+Check (C03.C03_query : forall fp o sizes inp bs,
+  bw_write fp o sizes inp = Ok bs \/ bw_write_multipass fp o sizes inp = Ok bs ->
+  opts_ok o -> input_ok sizes inp -> Nlen bs < U64 ->
+  exists i, read_info bs = Ok i /\
+    forall infl c vs s e, In (c, vs) (runs inp) -> bw_interval infl bs i c s e = Ok (clip_filter s e vs)).
+Check (C03.C03_values : forall fp o sizes inp bs,
+  bw_write fp o sizes inp = Ok bs \/ bw_write_multipass fp o sizes inp = Ok bs ->
+  opts_ok o -> input_ok sizes inp -> Nlen bs < U64 ->
+  exists i, read_info bs = Ok i /\
+    forall infl c vs s e, In (c, vs) (runs inp) -> s <= e -> bw_values infl bs i c s e = Ok (spec_values s e vs)).
+Check (C03.C03_sorted_clipped : forall len s e vals, wf_vals len vals -> s <= e ->
+  let ans := clip_filter s e vals in
+  StronglySorted before ans
+  /\ Forall (fun a => s <= v_start a /\ v_start a <= v_end a /\ v_end a <= e) ans
+  /\ (s < e -> Forall (fun v => v_start v < v_end v) vals -> Forall (fun a => v_start a < v_end a) ans)
+  /\ Forall (fun a => exists v, In v vals /\ keep s e v = true /\ a = clip s e v) ans).
+Check (C03.C03_values_array : forall len s e vals, wf_vals len vals -> s <= e ->
+  fill_values s e (clip_filter s e vals) = spec_values s e vals).
+Check (C03.C03_values_pointwise : forall s e vals j, (j < N.to_nat (e - s))%nat ->
+  nth_error (spec_values s e vals) j
+  = Some (match find (cover (s + N.of_nat j)) vals with Some v => Some (v_bits v) | None => None end)).
+Check (C03.C03_cover_unique : forall len vals p v w, wf_vals len vals -> In v vals -> In w vals ->
+  cover p v = true -> cover p w = true -> v = w).
 Check (C03.C03_step : forall infl bs i c q, cache_ok infl bs i c ->
   fst (qstep infl bs i c q) = fresh_answer infl bs i q /\ cache_ok infl bs i (snd (qstep infl bs i c q))).
+Check (C03.C03_block_read_reset : forall infl bs i c b, cache_ok infl bs i c ->
+  fst (c_block_data infl i bs c b) = block_data infl i bs b /\ cache_ok infl bs i (snd (c_block_data infl i bs c b))).
+Check (C03.C03_cache_bounded : forall infl bs i qs1 qs2,
+  cache_small (snd (qrun infl bs i cache0 qs1))
+  /\ cache_small (snd (qrun infl bs i (c_reopen (snd (qrun infl bs i cache0 qs1))) qs2))).
+Check (C03.C03_reopen : forall infl bs i c, cache_ok infl bs i c -> cache_ok infl bs i (c_reopen c)).
 Check (C03.C03_history : forall infl bs i qs1 qs2,
   fst (qrun infl bs i cache0 qs1) = map (fresh_answer infl bs i) qs1
   /\ fst (qrun infl bs i (c_reopen (snd (qrun infl bs i cache0 qs1))) qs2) = map (fresh_answer infl bs i) qs2).
+Check (C03.C03_history_written : forall fp o sizes inp bs,
+  bw_write fp o sizes inp = Ok bs \/ bw_write_multipass fp o sizes inp = Ok bs ->
+  opts_ok o -> input_ok sizes inp -> Nlen bs < U64 ->
+  exists i, read_info bs = Ok i /\
+  forall infl,
+    (forall qs1 qs2,
+        fst (qrun infl bs i cache0 qs1) = map (fresh_answer infl bs i) qs1
+        /\ fst (qrun infl bs i (c_reopen (snd (qrun infl bs i cache0 qs1))) qs2) = map (fresh_answer infl bs i) qs2)
+    /\ (forall c vs s e, In (c, vs) (runs inp) ->
+          fresh_answer infl bs i (QInterval c s e) = AInterval (Ok (clip_filter s e vs))
+          /\ (s <= e -> fresh_answer infl bs i (QValues c s e) = AValues (Ok (spec_values s e vs))))).
